@@ -11,6 +11,7 @@ import (
 	"github.com/fullstorydev/grpchan/grpchantesting"
 	"github.com/fullstorydev/grpchan/inprocgrpc"
 	"github.com/fullstorydev/grpchan/simrt"
+	"github.com/jhump/protoreflect/dynamic"
 	"google.golang.org/grpc"
 	"google.golang.org/grpc/credentials"
 	"google.golang.org/grpc/metadata"
@@ -39,8 +40,8 @@ type Event struct {
 	Flags  map[string]string `json:"flags,omitempty"`
 	OptH   []metadata.MD     `json:"opt_h,omitempty"` // grpc.Header targets at return
 	OptT   []metadata.MD     `json:"opt_t,omitempty"` // grpc.Trailer targets at return
-	obj    proto.Message     // the receiver's live object (for the later re-check)
-	sobj   proto.Message     // the sender's live object (for the later re-check)
+	obj    any               // the receiver's live object (generated or dynamic message; for the later re-check)
+	sobj   any               // the sender's live object (for the later re-check)
 	RawBody []byte           `json:"-"` // raw peer: reply body
 }
 
@@ -297,18 +298,16 @@ func (s *Sim) clientMain(rs *rpcState, g int, ops []Op) {
 					junk = op.N == 1
 				}
 			}
-			req := spec.Build()
+			req := buildObj(spec, r.DynC)
 			rs.sentObjs = append(rs.sentObjs, req)
-			resp := &grpchantesting.Message{}
-			if junk {
-				resp = junkMessage()
-			}
+			resp := newDst(junk, r.DynC)
 			ev := s.begin(r.ID, 'c', g, "invoke")
 			ev.Msg = spec
+			ev.sobj = req
 			err := guard(ev, func() error { return conn.Invoke(rs.ctx, r.Call, req, resp, opts...) })
 			if err == nil {
-				ev.GotMsg = proto.Clone(resp)
-				ev.Got = digestMsg(resp)
+				ev.GotMsg = proto.Clone(asGen(resp))
+				ev.Got = digestAny(resp)
 				ev.obj = resp
 				rs.recvObjs = append(rs.recvObjs, resp)
 			}
@@ -394,7 +393,7 @@ func (s *Sim) clientOp(rs *rpcState, g int, st grpc.ClientStream, op Op) {
 		if st == nil {
 			return
 		}
-		obj := op.Msg.Build()
+		obj := buildObj(op.Msg, r.DynC)
 		s.mu.Lock()
 		rs.sentObjs = append(rs.sentObjs, obj)
 		s.mu.Unlock()
@@ -480,15 +479,12 @@ func (s *Sim) clientOp(rs *rpcState, g int, st grpc.ClientStream, op Op) {
 
 func (s *Sim) clientRecv(rs *rpcState, g int, st grpc.ClientStream, junk bool) error {
 	r := rs.r
-	dst := &grpchantesting.Message{}
-	if junk {
-		dst = junkMessage()
-	}
+	dst := newDst(junk, r.DynC)
 	ev := s.begin(r.ID, 'c', g, "recv")
 	err := guard(ev, func() error { return st.RecvMsg(dst) })
 	if err == nil {
-		ev.GotMsg = proto.Clone(dst)
-		ev.Got = digestMsg(dst)
+		ev.GotMsg = proto.Clone(asGen(dst))
+		ev.Got = digestAny(dst)
 		ev.obj = dst
 		s.mu.Lock()
 		idx := len(rs.recvObjs)
@@ -563,7 +559,7 @@ func (s *Sim) recheck(rs *rpcState, side byte, g int) {
 	}
 	s.mu.Unlock()
 	for _, ev := range evs {
-		if d := digestMsg(ev.obj); d != ev.Got {
+		if d := digestAny(ev.obj); d != ev.Got {
 			s.instant(rs.r.ID, side, g, "recheck", func(e *Event) {
 				e.Note = fmt.Sprintf("MODIFIED: message received at seq %d was %s, is now %s", ev.Seq, ev.Got, d)
 			})
@@ -582,7 +578,7 @@ func (s *Sim) recheck(rs *rpcState, side byte, g int) {
 	s.mu.Unlock()
 	for _, ev := range sent {
 		want := digestMsg(ev.Msg.Build())
-		if d := digestMsg(ev.sobj); d != want {
+		if d := digestAny(ev.sobj); d != want {
 			s.instant(rs.r.ID, side, g, "recheck", func(e *Event) {
 				e.Note = fmt.Sprintf("MODIFIED: message sent at seq %d was %s, is now %s although this side never touched it", ev.Seq, want, d)
 			})
@@ -616,14 +612,21 @@ func (s *Sim) mutate(rs *rpcState, side byte, g int, ref string) {
 	if idx < len(list) {
 		obj = list[idx]
 	}
-	if pm, ok := obj.(proto.Message); ok && obj != nil {
+	if obj != nil {
 		if rs.mutatedObj == nil {
-			rs.mutatedObj = map[proto.Message]bool{}
+			rs.mutatedObj = map[any]bool{}
 		}
-		rs.mutatedObj[pm] = true
+		rs.mutatedObj[obj] = true
 	}
 	s.mu.Unlock()
 	if obj == nil {
+		return
+	}
+	if dm, ok := obj.(*dynamic.Message); ok && dm != nil {
+		s.instant(rs.r.ID, side, g, "mutate", func(e *Event) { e.Note = ref })
+		mutateDyn(dm)
+		s.probe("mutations")
+		s.probe("mutations-dynamic")
 		return
 	}
 	m, ok := obj.(*grpchantesting.Message)
@@ -657,14 +660,33 @@ func (s *Sim) mutate(rs *rpcState, side byte, g int, ref string) {
 // sharesMemory reports a description of memory reachable from both messages.
 func sharesMemory(a, b any) string {
 	seen := map[uintptr]string{}
-	collect(reflect.ValueOf(a), "", seen, nil)
+	collectAny(a, seen, nil)
 	var hit string
-	collect(reflect.ValueOf(b), "", nil, func(p uintptr, path string) {
+	collectAny(b, nil, func(p uintptr, path string) {
 		if w, ok := seen[p]; ok && hit == "" {
 			hit = fmt.Sprintf("%s aliases %s", path, w)
 		}
 	})
 	return hit
+}
+
+// collectAny walks a generated message by reflection and a dynamic message
+// through its field accessors (its own fields are unexported).
+func collectAny(o any, seen map[uintptr]string, probe func(uintptr, string)) {
+	dm, ok := o.(*dynamic.Message)
+	if !ok {
+		collect(reflect.ValueOf(o), "", seen, probe)
+		return
+	}
+	if dm == nil {
+		return
+	}
+	for _, fd := range dm.GetKnownFields() {
+		if !dm.HasField(fd) {
+			continue
+		}
+		collect(reflect.ValueOf(dm.GetField(fd)), ".dyn:"+fd.GetName(), seen, probe)
+	}
 }
 
 func collect(v reflect.Value, path string, seen map[uintptr]string, probe func(uintptr, string)) {
@@ -869,7 +891,7 @@ func (s *Sim) streamHandler(rs *rpcState, stream grpc.ServerStream) (err error) 
 				}
 			}
 		case "send":
-			obj := op.Msg.Build()
+			obj := buildObj(op.Msg, r.DynH)
 			s.mu.Lock()
 			rs.hSentObjs = append(rs.hSentObjs, obj)
 			s.mu.Unlock()
@@ -928,12 +950,12 @@ func (s *Sim) streamHandler(rs *rpcState, stream grpc.ServerStream) (err error) 
 
 func (s *Sim) handlerRecv(rs *rpcState, stream grpc.ServerStream) error {
 	r := rs.r
-	dst := &grpchantesting.Message{}
+	dst := newDst(false, r.DynH)
 	ev := s.begin(r.ID, 'h', 0, "recv")
 	err := guard(ev, func() error { return stream.RecvMsg(dst) })
 	if err == nil {
-		ev.GotMsg = proto.Clone(dst)
-		ev.Got = digestMsg(dst)
+		ev.GotMsg = proto.Clone(asGen(dst))
+		ev.Got = digestAny(dst)
 		ev.obj = dst
 		s.mu.Lock()
 		idx := len(rs.hRecvObjs)
@@ -971,14 +993,14 @@ func (s *Sim) unaryHandler(rs *rpcState, ctx context.Context, dec func(any) erro
 		simrt.Yield(name + ":" + ops[i].K)
 		s.unaryOp(rs, ctx, ops[i])
 	}
-	req := &grpchantesting.Message{}
+	req := newDst(false, r.DynH)
 	if i < len(ops) && ops[i].K == "decode" {
 		simrt.Yield(name + ":decode")
 		ev := s.begin(r.ID, 'h', 0, "recv")
 		derr := guard(ev, func() error { return dec(req) })
 		if derr == nil {
-			ev.GotMsg = proto.Clone(req)
-			ev.Got = digestMsg(req)
+			ev.GotMsg = proto.Clone(asGen(req))
+			ev.Got = digestAny(req)
 			ev.obj = req
 			s.mu.Lock()
 			rs.hRecvObjs = append(rs.hRecvObjs, req)
@@ -1013,7 +1035,7 @@ func (s *Sim) unaryHandler(rs *rpcState, ctx context.Context, dec func(any) erro
 				if op.Msg == nil {
 					op.Msg = &MsgSpec{Kind: 1}
 				}
-				obj := op.Msg.Build()
+				obj := buildObj(op.Msg, r.DynH)
 				if op.N == 2 {
 					var nilMsg *grpchantesting.Message
 					return nilMsg, e
@@ -1022,7 +1044,7 @@ func (s *Sim) unaryHandler(rs *rpcState, ctx context.Context, dec func(any) erro
 				rs.hSentObjs = append(rs.hSentObjs, obj)
 				s.mu.Unlock()
 				s.instant(r.ID, 'h', 0, "send", func(ev *Event) { ev.Msg = op.Msg; ev.Err = &ErrRec{Class: "nil"}; ev.Note = "unary response" })
-				respMsg = obj
+				respMsg = asGen(obj)
 				return obj, e
 			}
 			s.unaryOp(rs, ctx, op)
@@ -1108,4 +1130,89 @@ func (s *Sim) waitCtx(ctx context.Context, ev *Event) {
 		ev.Note = "NEVER-CANCELLED"
 	}
 	simrt.Woken("waitctx")
+}
+
+
+// ---------------------------------------------------------------------------
+// message representations: generated (grpchantesting.Message) or dynamic
+// (jhump/protoreflect dynamic.Message of the same type). The in-process
+// channel hands over objects, not bytes, so both representations (and copies
+// from one into the other) are part of what C01/C06 quantify over.
+
+// asGen returns the content of a live object as a fresh or existing generated
+// message (never nil).
+func asGen(o any) *grpchantesting.Message {
+	switch m := o.(type) {
+	case *grpchantesting.Message:
+		if m == nil {
+			return &grpchantesting.Message{}
+		}
+		return m
+	case *dynamic.Message:
+		g := &grpchantesting.Message{}
+		if m != nil {
+			if err := m.ConvertTo(g); err != nil {
+				return &grpchantesting.Message{Count: -999999}
+			}
+		}
+		return g
+	}
+	return &grpchantesting.Message{}
+}
+
+func digestAny(o any) string { return digestMsg(asGen(o)) }
+
+func isDyn(o any) bool { _, ok := o.(*dynamic.Message); return ok }
+
+// buildObj builds the object a side hands to the library.
+func buildObj(spec *MsgSpec, dyn bool) any {
+	m := spec.Build()
+	if dyn && spec.Kind != 4 {
+		if dm, err := dynamic.AsDynamicMessage(m); err == nil {
+			return dm
+		}
+	}
+	return m
+}
+
+// newDst builds a receive destination.
+func newDst(junk, dyn bool) any {
+	var m *grpchantesting.Message
+	if junk {
+		m = junkMessage()
+	} else {
+		m = &grpchantesting.Message{}
+	}
+	if dyn {
+		if dm, err := dynamic.AsDynamicMessage(m); err == nil {
+			return dm
+		}
+	}
+	return m
+}
+
+// mutateDyn scribbles over a dynamic message in place.
+func mutateDyn(dm *dynamic.Message) {
+	if b, ok := dm.GetFieldByName("payload").([]byte); ok {
+		for i := range b {
+			b[i] ^= 0xA5
+		}
+		dm.TrySetFieldByName("payload", append(b, 0xEE))
+	}
+	if c, ok := dm.GetFieldByName("count").(int32); ok {
+		dm.TrySetFieldByName("count", c+1000)
+	}
+	if hm, ok := dm.GetFieldByName("headers").(map[interface{}]interface{}); ok {
+		for k, v := range hm {
+			if b, ok := v.([]byte); ok {
+				for i := range b {
+					b[i] ^= 0x5A
+				}
+				hm[k] = b
+			}
+		}
+		if len(hm) > 0 {
+			dm.TryPutMapFieldByName("headers", "mutated", []byte("yes"))
+		}
+	}
 }
